@@ -92,7 +92,8 @@ def run(ctx):
         inp = os.path.join(base, 'experiment input.xlsx')
         excelgen.write_input_workbook(inp, itab, btab, stab)
         outp = os.path.join(base, 'custom_out.xlsx') if explicit else None
-        d = dict(plot=plot, hist_sheet=hist, explicit_output=explicit, n_beads=len(btab), n_samples=len(stab),
+        verbose = cid[1] % 4 == 2 or cid[1] % 6 == 3          # progress messages on (one of them with plots)
+        d = dict(plot=plot, hist_sheet=hist, explicit_output=explicit, verbose=verbose, n_beads=len(btab), n_samples=len(stab),
                  clustering_channels=ncl)
         np.random.seed(int(rng.integers(1 << 30)))
         rows = len(btab) + len(stab)
@@ -101,7 +102,12 @@ def run(ctx):
             warnings.simplefilter('ignore')
             with reach.StepCounter(core.repo_root(), budget=budget) as sc:
                 try:
-                    o = core.attempt(E.run, input_path=inp, output_path=outp, verbose=False, plot=plot, hist_sheet=hist)
+                    import contextlib
+                    import io
+                    with contextlib.redirect_stdout(io.StringIO()) as _so:
+                        o = core.attempt(E.run, input_path=inp, output_path=outp, verbose=verbose, plot=plot, hist_sheet=hist)
+                    if verbose and not o.raised:
+                        ctx.note('verbose runs that printed progress', 1 if _so.getvalue() else 0)
                 except reach.StepBudgetExceeded as e:      # the workflow did not finish within its logical step budget
                     o = core.Outcome(None, RuntimeError('step budget exceeded: %s' % e), [])
         plt.close('all')
